@@ -235,7 +235,8 @@ def build_model(cfg, therm=None, names=None, elements=None):
         m.setup()      # setup() resets the PBMs, so a distribution can only be loaded after it (setup is idempotent)
         for p in range(len(names)):
             r = m.PBM[p].PSDsize
-            m.PBM[p].PSD = 1e20 * np.exp(-0.5 * (np.log(r / 2e-9) / 0.25) ** 2)
+            # preload = True: a dilute population; a number = peak density (a dense one makes the volume-fraction cap act)
+            m.PBM[p].PSD = (1e20 if c['preload'] is True else float(c['preload'])) * np.exp(-0.5 * (np.log(r / 2e-9) / 0.25) ** 2)
     return m, therm, c
 
 
